@@ -529,7 +529,7 @@ def check_endianness(ctx, P, rule="E9.endian"):
             n = nrev(ret)
             ok = len(src) >= 1 and (n % 2 == 1) == want_rev
         else:
-            fr = [x for x in subterms(ret) if x.op == "call" and B.cname(x) == "PrimeField::from_repr"]
+            fr = [x for x in subterms(ret) if x.op == "call" and B.cname(x).split("::")[-1] in ("from_repr", "from_repr_vartime", "scalar_from_bytes_wide", "from_bytes_wide")]
             n = -1
             ok = bool(fr)
             for c in fr:
